@@ -39,8 +39,12 @@ func NewQueue[T any]() *Queue[T] {
 
 // Len returns the total number of items in the queue
 func (q *Queue[T]) Len() int {
+	// both counters are updated under the lock; reading them without it can
+	// pair a stale writeCount with a newer readCount
+	q.mx.RLock()
 	writeCount := q.writeCount.Load()
 	readCount := q.readCount.Load()
+	q.mx.RUnlock()
 
 	if writeCount < readCount {
 		// The writeCount counter wrapped around
